@@ -18,7 +18,25 @@ def master(rng, quick):
         part = [o for o in g() if not o["op"].startswith(HOOK_ONLY) and o["op"] != "info"]
         ops.append({"op": "reset"})
         ops += part
-    return [{"op": "info"}] + ops
+    return [{"op": "info"}] + ops + misuse(rng)
+
+
+def misuse(rng):
+    """calls the documentation calls an error (iterators of inconsistent lengths): no outcome is specified, but whatever
+    happens - a value or a panic - must not depend on the configuration"""
+    ops = [{"op": "reset"}]
+    for i in range(4):
+        ops.append({"op": "ed.mul_base", "in": [le(rng.randrange(1, L))], "out": "U%d" % i})
+    sc = lambda k: [le(rng.randrange(L)) for _ in range(k)]
+    for mode in ("mixed", "optional"):
+        for ns, nd, npt in ((2, 3, 2), (2, 1, 2), (3, 2, 2), (0, 1, 0), (2, 0, 1)):      # static scalars, dynamic scalars, dynamic points (2 static points)
+            ops.append({"op": "ed.precomputed", "static_points": ["U0", "U1"], "static_scalars": sc(ns), "dynamic_scalars": sc(nd),
+                        "dynamic_points": ["U2", "U3"][:npt], "mode": mode, "out": "R", "misuse": True})
+    ops.append({"op": "ed.precomputed", "static_points": ["U0", "U1"], "static_scalars": sc(3), "dynamic_scalars": [], "dynamic_points": [], "mode": "static", "out": "R", "misuse": True})
+    for op in ("ed.multiscalar_mul", "ed.vartime_multiscalar_mul", "ed.optional_multiscalar_mul"):
+        for ns, npt in ((3, 2), (1, 2), (0, 1)):
+            ops.append({"op": op, "scalars": sc(ns), "points": ["U0", "U1"][:npt], "out": "R", "misuse": True})
+    return ops
 
 
 def public(obs):
@@ -66,7 +84,9 @@ def run(ck):
             for (lab, _), e in zip(traces, evs):
                 disp[lab].add(e[i].get("backend", 0))
             f.write(json.dumps({"i": evs[0][i]["i"], "op": evs[0][i]["op"], "cfgs": [lab for lab, _ in traces],
-                                "obs": [json.dumps(public(e[i]["obs"]), sort_keys=True) for e in evs], "panic": [e[i]["panic"] for e in evs]}) + "\n")
+                                "obs": [json.dumps(public(e[i]["obs"]), sort_keys=True) for e in evs],
+                                # the text of a panic names the source file of the copy that raised it: for misuse requests only the fact counts
+                                "panic": [("panic" if e[i]["panic"] else "") if evs[0][i].get("misuse") else e[i]["panic"] for e in evs]}) + "\n")
     v = validate_trace(merged, os.path.join(ck.workdir, "tv_equiv"), module="TraceEquiv")
     ck.traces += len(traces)
     ck.states += v["states"]
